@@ -21,7 +21,7 @@ RULE = ("Part A (exhaustive): retry budget r in 1..4 (quick: 1..3); each transmi
         "time and outcome; with r=3 also Device._send_command()==[] and refresh() -> online False on timeout. Part B "
         "(exhaustive): every single fault and ordered pair from {drop, drop incl. handshake, error packet, garbage, peer close, "
         "connect refused, connect hangs, cancel at each protocol phase} x {V2,V3} x {fresh object, established connection}, "
-        "followed by a clean exchange immediately or after a pause: faulty exchange ends within contract (frames / "
+        "followed by a clean exchange immediately or after a pause (on V3 the user's single authenticate() call may have been abandoned during the 1 s settle pause after the handshake): faulty exchange ends within contract (frames / "
         "ProtocolError / TimeoutError / cancellation) and the clean exchange returns the device's reply (fresh handshake on V3 "
         "when needed) and refresh() reports online. Part C (Hypothesis): longer random fault sequences. Non-trivial: >=1 "
         "retransmission, or a fault followed by a successful exchange. Distinct by pattern.")
@@ -247,9 +247,22 @@ def check_faults(case: dict):
         ac = AC(ip="10.0.0.9", port=6444, device_id=9)
         lan = ac._lan
         if version == 3:
-            # credentials known to the object (as after discovery): every later exchange may re-authenticate by itself
-            lan._token, lan._key = TOKEN, KEY
-            lan._protocol_version = 3
+            # the user authenticates once; every later exchange may have to re-authenticate by itself. Optionally the
+            # caller gives up waiting during the 1 s settle pause that follows a successful handshake.
+            if case.get("start") == "auth_cancel_pause":
+                task = asyncio.ensure_future(ac.authenticate(TOKEN, KEY))
+                await asyncio.sleep(0.5)
+                task.cancel()
+                try:
+                    await task
+                except BaseException:
+                    pass
+            else:
+                await ac.authenticate(TOKEN, KEY)
+            if not established:
+                # ... and the connection went away meanwhile (peer closed it): the next exchange starts from scratch
+                dev.conns[-1].close()
+                await asyncio.sleep(0.01)
 
         async def exchange():
             return await lan.send(FRAME)
@@ -416,6 +429,8 @@ def run(ctx) -> None:
                     if not ctx.mine(m):
                         continue
                     case = {"part": "B", "version": version, "established": established, "faults": list(faults), "pause": pause}
+                    if version == 3 and m % 3 == 0:
+                        case["start"] = "auth_cancel_pause"
                     ctx.check(case, lambda c: _run_one(ctx, c))
     ctx.sweep("part B: single faults and ordered pairs x {V2,V3} x {fresh,established} x {immediately, after a pause}", m, True)
 
@@ -424,5 +439,5 @@ def run(ctx) -> None:
         "faults": st.lists(st.sampled_from(FAULTS), min_size=1, max_size=6),
         "pause": st.sampled_from([0.0, 0.0, 0.01, 0.04, 0.06, 0.5, 1.2, 3.0, 30.0]),
         "cancel_jitter": st.sampled_from([0.0, 0.0, 0.01, -0.01, 0.025]),
-        "garbage": st.binary(min_size=1, max_size=40).map(lambda b: b.hex())})
+        "garbage": st.binary(min_size=1, max_size=40).map(lambda b: b.hex()), "start": st.sampled_from(["auth", "auth", "auth_cancel_pause"])})
     ctx.hyp("part C", cases, lambda c: _run_one(ctx, c), ctx.n(1600, 96000))
